@@ -20,6 +20,9 @@ META = {
         "negation / conjunction / disjunction of the denotations of their operands, for short_circuit True and False alike, with "
         "operands abstracted by the very contract being proved (result.result == den(node, entry), den a pure total predicate): by "
         "structural induction every filter tree of every depth means what it says and the two evaluation modes agree. "
+        "FilteringMessageLogger.add_log_entry: unless paused the entry is retained exactly once; it enters the view only if the filter "
+        "accepted that very entry, at the end of the view, at most once; a filter or model-hook failure never escapes. "
+        "WrappingMessageLogger.add_log_entry: every wrapped logger is offered the entry, the summary is cached iff one kept it, one freeze. "
         "B (bounded): leaf comparisons (every operator x value type: inapplicable => False, never an error), the arpeggio grammar -> "
         "tree step, the FilteringMessageLogger view invariant over operation sequences with window overflow, freeze/thaw and "
         "export/import."),
